@@ -181,11 +181,18 @@ class Device(object):
 class Session(object):
     """A registered in-process session: wraps messages in SendRRData frames encoded by refcodec."""
 
-    def __init__(self, dev, addr=('127.0.0.1', 10001)):
+    def __init__(self, dev, addr=('127.0.0.1', 10001), register=True):
         self.dev = dev
         self.addr = tuple(addr)
         self.counter = 0
-        kind, rpy = dev.process(self.addr, rc.register())
+        self.handle = None
+        self.alive = False
+        if register:
+            self.register()
+
+    def register(self, machine=None):
+        dev = self.dev
+        kind, rpy = dev.process(self.addr, rc.register(), machine=machine)
         assert kind == 'reply', (kind, rpy)
         e = rc.dec_encap(rpy)
         assert e['status'] == 0 and e['session'] != 0
